@@ -41,6 +41,12 @@ class Gear209Sim:
             name = self.ext.get(lb, "?")
         elif dest is not None and (f >> 8) & 1 and dt != 0:
             name = "?"
+        # a configuration command takes effect when it is received twice in a row
+        if name == "StoreColourTemperatureTcLimit" and addressed:
+            if getattr(self, "pend", -1) != f:
+                self.pend = f
+                return ("none", 0)
+        self.pend = -1
         if name == "DTR0":
             self.dtr0 = lb
         elif name == "DTR1":
@@ -109,7 +115,13 @@ def _prepare(case):
         f = cmd.frame.as_integer
         dt = cmd.devicetype if isinstance(cmd.devicetype, int) else -1
         resp = sim.step(f, dt)
-        return resp, {"f": f, "dt": dt, "resp": list(resp)}
+        ev = {"f": f, "dt": dt, "resp": list(resp)}
+        if cmd.sendtwice:
+            # what every driver does with a command that says it must be sent twice: the frame goes out again (with its
+            # device-type prefix); the record keeps both receptions
+            resp2 = sim.step(f, dt)
+            return resp2, [ev, {"f": f, "dt": dt, "resp": list(resp2)}]
+        return resp, ev
 
     seq = case["seq"]
     rec = {"seq": seq, "unit": u, "value": case.get("value", 0) if isinstance(case.get("value", 0), int) else 0,
